@@ -114,6 +114,10 @@ fn slice_case<T: El>(buf_len: usize, off: usize, n: usize) -> R {
                     for e in re.iter_mut() {
                         *e = marker;
                     }
+                    // the view that was re-borrowed is as before once the re-borrow has ended
+                    ensure!(m.as_ptr() as usize == p && m.len() == l && m.as_slice().len() == l, "slice:mut_reborrow_original", "after From<&mut CSliceMut> the original view has address {:#x} / length {} (was {:#x} / {})", m.as_ptr() as usize, m.len(), p, l);
+                    let r2 = CSliceRef::from(&m);
+                    ensure!(r2.as_ptr() as usize == p && r2.len() == l, "slice:mut_reborrow_original", "after From<&mut CSliceMut> a CSliceRef of the original view has length {} (was {})", r2.len(), l);
                 }
                 3 => {
                     let d: &mut [T] = m.into();
